@@ -120,7 +120,8 @@ pub struct Placements {
 }
 const BOUND: f64 = 1e20;
 fn bmenu() -> Vec<f64> {
-    vec![1.0, BOUND * (1.0 - 1e-6), BOUND, 10.0 * BOUND, 1e30]
+    // the last entry is "minus infinity": an unsatisfiable row, which must never be treated as vacuous
+    vec![1.0, BOUND * (1.0 - 1e-6), BOUND, 10.0 * BOUND, 1e30, -10.0 * BOUND]
 }
 
 impl Placements {
@@ -333,7 +334,7 @@ impl Space for Histories {
 }
 
 pub const ASSUMPTIONS: &[&str] = &[
-    "right-hand sides are kept away from the 10-epsilon contraction of the threshold (values bound*(1-1e-6), bound, 10*bound, 1e30)",
+    "right-hand sides are kept away from the 10-epsilon contraction of the threshold (values bound*(1-1e-6), bound, 10*bound, 1e30, and -10*bound)",
     "singleton SOC/PSD cones count as nonnegative rows (documented collapse)",
     "the reference solver is built on data reduced and capped by hand with presolve disabled (histories: additionally with the module bound parked at 1e300 so the crate can neither drop nor cap); kept entries must agree bit for bit",
     "the histories run in one thread of a dedicated process and restore the default bound",
